@@ -49,5 +49,14 @@ BoundedStaleness == L.intv > 0 => \A k \in Dead(L, L.now) : L.phys[k] >= L.next 
 TickAhead == L.intv > 0 => L.now < L.next
 PendingOnlyWithCallback == \A p \in L.pend : p.cb # ""
 
+\* action properties: whatever removes an entry (tick, access, manual pass), the entry was expired at the
+\* instant of the step - an unexpired entry is never dropped (C15 with C01's last clause); a pass leaves no
+\* expired entry behind; the ticker's next instant only moves forward, by whole intervals
+NoLiveRemoved == [][((DOMAIN L.phys) \ (DOMAIN L'.phys)) \subseteq Dead(L, L'.now)]_vars
+PassIsComplete == [][(removedByTime' # removedByTime \/ (L'.now = L.now /\ L'.pend # L.pend /\ L'.pend # {})) => Dead(L', L'.now) = {}]_vars
+TickerForward == [][L.intv > 0 => /\ L'.next >= L.next
+                                   /\ (L'.next - L.next) % L.intv = 0
+                                   /\ L'.intv = L.intv]_vars
+
 IntervalsDef == {0 - 3, 0, 2, 3}
 =============================================================================
